@@ -42,6 +42,18 @@ def h_exc(post: bool, noxfail: bool, shape: int, b0: bool, s0: int, b1: bool, r1
     return reach(L.untraced(L.run_exc, post, noxfail, shape, b0, s0, b1, r1, kind))
 
 
+def h_literal(post: bool, first: bool, lit: int, sel: int, tail: int) -> bool:
+    """
+    pre: 0 <= lit < 6 and 0 <= sel <= 5 and 0 <= tail <= 4
+    pre: not first or sel == 0 or sel == 1 or sel == 3
+    post: _
+    """
+    # A primitive / small collection LITERAL statement (`v = 42`, `v = [1, 'a', -2.5]`, ...) whose variable may be
+    # unused, carrying assertions on its own variable or on OTHER references (watch-list oracle on the object bound
+    # before it, static field of the module): the binding and even a literal without oracles may go, the oracles not.
+    return reach(L.untraced(L.run_literal, post, first, lit, sel, tail))
+
+
 META = {
     "level": "model_checking",
     "claim": "Solver-enumerated structures on the real code: for every test case of <= 3 statements over the stated structure selectors "
@@ -63,6 +75,9 @@ META = {
                   "pynguin.assertion.assertion_to_ast.assertion_to_cst"],
     "bounds": {"statements": "<= 3 (exception harness: 2)", "reads": "statement 1: none / v0; statement 2: none / v0 / v1 / v0 and v1",
                "binding_shapes": "plain `v = call`, annotated `v: object = call`, bare expression",
+               "literal_statements": "`v = <literal>` for 42, -2.5, 'abc', [1, 'a', -2.5], {'k': (1, True)}, None, first or after an object binding, "
+                                     "with assertions on its own variable / the earlier object's field (watch list) / a module field / isinstance, "
+                                     "followed by nothing or a call reading none / the object / the literal / both",
                "assertions": "per bound statement: none | object | float + object | object + object on a field of the previous variable | "
                              "object on a module field",
                "pipeline": "remove_unused_variables once (export) or twice (post-processing visitor, then export)",
@@ -86,4 +101,5 @@ def obligations(tier: str):
     return [
         Chx("keep", h_keep, timeout=T, split={"n": [1, 2, 3], "shape": [0, 1]}),
         Chx("exc", h_exc, timeout=T),
+        Chx("literal", h_literal, timeout=T),
     ]
